@@ -24,6 +24,9 @@ struct Case {
     /// number of skip connections to try to add between layers with equal input sizes (chains included)
     connects: usize,
     cseed: u32,
+    /// Some((layers in a chain of equally wide dense layers, iterations, input skips)): a loop connection over part
+    /// of the chain with a skip connection whose source lies inside the looped range
+    looped: Option<(usize, usize, bool)>,
 }
 
 fn decode(tape: &[u32]) -> Case {
@@ -49,7 +52,21 @@ fn decode(tape: &[u32]) -> Case {
     } else {
         None
     };
-    Case { spec, obj, tol, n, wseed: t.raw(), dseed: t.raw(), softmax, switch_to, connects: if t.chance(1, 3) { t.usize(1, 3) } else { 0 }, cseed: t.raw() }
+    let (wseed, dseed, connects, cseed) = (t.raw(), t.raw(), if t.chance(1, 3) { t.usize(1, 3) } else { 0 }, t.raw());
+    // (drawn last) one case in six: the layers before the output layer are a chain of 2-4 equally wide dense layers,
+    // part of which a loop connection repeats
+    let looped = if t.chance(1, 6) {
+        let width = t.usize(1, 5);
+        let nl = t.usize(2, 4);
+        let out = spec.layers.pop().unwrap();
+        spec.input = vec![width];
+        spec.layers = (0..nl).map(|_| LayerSpec::Dense { out: width, act: [ActK::Linear, ActK::Tanh, ActK::Sigmoid, ActK::Leaky][t.pick(4)], bias: t.bool(), dropout: None }).collect();
+        spec.layers.push(out);
+        Some((nl, t.usize(1, 3), t.bool()))
+    } else {
+        None
+    };
+    Case { spec, obj, tol, n, wseed, dseed, softmax, switch_to, connects, cseed, looped }
 }
 
 fn check(case: &Case, ev: &mut CaseEv) -> CheckResult {
@@ -90,7 +107,40 @@ fn check(case: &Case, ev: &mut CaseEv) -> CheckResult {
             ev.class(format!("{} skip connection(s)", added));
         }
     }
-    let ps = seeded_params(&net, spec, case.wseed, 1, 1.0);
+    if let Some((nl, k, ins)) = case.looped {
+        let mut mix = crate::tape::Mix::new(case.cseed as u64 ^ 0x100b);
+        let a = mix.below(nl as u64 - 1) as usize;
+        let b = a + 1 + mix.below((nl - 1 - a) as u64) as usize;
+        let (sacc, lacc) = (ACCS[mix.below(5) as usize], ACCS[mix.below(5) as usize]);
+        catch(std::panic::AssertUnwindSafe(|| {
+            net.set_accumulation(sacc.lib(), lacc.lib());
+            net.loopback(b, a, k, std::sync::Arc::new(|x| 1.0 / x), ins);
+        }))
+        .map_err(|p| Fail::new(format!("valid loop connection {}..{} x{} rejected: {} ({:?})", a, b, k, p, spec)))?;
+        ev.class("loop connection");
+        // a skip connection whose source lies inside the looped range (after its first layer), target at or after it
+        if mix.below(4) != 0 {
+            let src = a + 1 + mix.below((b - a) as u64) as usize;
+            let dst = src + mix.below((nl + 1 - src) as u64) as usize;
+            if catch(std::panic::AssertUnwindSafe(|| net.connect(src, dst))).is_ok() {
+                ev.class("loop connection with a skip connection sourced inside the looped range");
+            }
+        }
+    }
+    let mut ps = seeded_params(&net, spec, case.wseed, 1, 1.0);
+    // one regression case in five: a linear output layer with weights of scale 1000, so that the outputs (and the targets
+    // derived from them) are large against the small tolerances (1e-6 is then below half a unit in the last place)
+    if case.wseed % 5 == 0 && !case.softmax && case.switch_to.is_none() && !matches!(case.obj, ObjK::CE | ObjK::BCE | ObjK::KL) && matches!(spec.layers.last(), Some(LayerSpec::Dense { act: ActK::Linear, .. })) {
+        let last = spec.layers.len() - 1;
+        for (r, t) in ps.iter_mut() {
+            if r.layer == last {
+                let d = tensor_dims(t);
+                let v: Vec<f32> = tens::flat(t).iter().map(|x| x * 1000.0).collect();
+                *t = tens::build(&d, &v);
+            }
+        }
+        ev.class("outputs of magnitude 1e3 (tolerances below the spacing of the targets)");
+    }
     apply_params(&mut net, &ps);
     net.set_objective(lib_obj(case.obj), None);
     let mut softmax_now = case.softmax;
@@ -296,14 +346,14 @@ impl Prop for C12 {
         Some(3)
     }
     fn rule(&self) -> String {
-        "tape-decoded network (1-2 generated layers of any kind incl. feedback blocks + a final dense layer (1-5 outputs, one case in 25: 17-130) with soft-max or another activation; in one case of four the output activation is changed afterwards with set_activation; in one case of three up to three skip connections, chains included, are added), objective of 7, tolerance in {0, 1e-6, 1e-3, 0.1, 1, 1e30}, N in {1, 2, 63, 64, 65, 127, 128, 129, 200} or random 1..300; targets derived from the predictions so that components lie exactly on / at the tolerance / inside / outside it and one-hot or soft (peak often below 0.5) targets agree or disagree with the arg-max; inputs independent O(1), or (1/8) a fine sweep with consecutive inputs a few ulp apart, or (1/8) of magnitude 1e-6. Oracle from public pieces: loss = mean of objective(predict(x), t) (order-free tolerance), accuracy interval by the stated rule (components at exactly the tolerance and arg-max ties may count either way), predict_batch[i] == predict(x_i) bitwise in order, predict == last activation of forward; for spatial inputs the samples are in a third of the cases also handed to predict / predict_batch as flat vectors; a second validate call on a prefix of the data (fewer samples, same network object) is held to the same rule. Non-trivial: N > 64, N mod 64 != 0 and both scoring outcomes present. Distinct = (architecture, objective, tolerance, N).".into()
+        "tape-decoded network (1-2 generated layers of any kind incl. feedback blocks + a final dense layer (1-5 outputs, one case in 25: 17-130) with soft-max or another activation; in one case of four the output activation is changed afterwards with set_activation; in one case of three up to three skip connections, chains included, are added; in one case of six the layers before the output layer are a chain of 2-4 equally wide dense layers with a loop connection (1-3 iterations, input skips on/off, any accumulation) over two or more of them and, three times in four, a skip connection whose source lies inside the looped range), objective of 7, tolerance in {0, 1e-6, 1e-3, 0.1, 1, 1e30}, N in {1, 2, 63, 64, 65, 127, 128, 129, 200} or random 1..300; targets derived from the predictions so that components lie exactly on / at the tolerance / inside / outside it and one-hot or soft (peak often below 0.5) targets agree or disagree with the arg-max; in one regression case of five the linear output layer has weights of scale 1000 (outputs and targets large against the small tolerances); inputs independent O(1), or (1/8) a fine sweep with consecutive inputs a few ulp apart, or (1/8) of magnitude 1e-6. Oracle from public pieces: loss = mean of objective(predict(x), t) (order-free tolerance), accuracy interval by the stated rule (components at exactly the tolerance and arg-max ties may count either way), predict_batch[i] == predict(x_i) bitwise in order, predict == last activation of forward; for spatial inputs the samples are in a third of the cases also handed to predict / predict_batch as flat vectors; a second validate call on a prefix of the data (fewer samples, same network object) is held to the same rule. Non-trivial: N > 64, N mod 64 != 0 and both scoring outcomes present. Distinct = (architecture, objective, tolerance, N).".into()
     }
     fn run_case(&self, tape: &[u32], ev: &mut CaseEv) -> CheckResult {
         check(&decode(tape), ev)
     }
     fn describe(&self, tape: &[u32]) -> Value {
         let c = decode(tape);
-        json!({"spec": format!("{:?}", c.spec), "objective": format!("{:?}", c.obj), "tol": c.tol, "n": c.n, "softmax": c.softmax})
+        json!({"spec": format!("{:?}", c.spec), "objective": format!("{:?}", c.obj), "tol": c.tol, "n": c.n, "softmax": c.softmax, "loop(chain layers, iterations, inskips)": format!("{:?}", c.looped)})
     }
 }
 
